@@ -480,6 +480,37 @@ func campaignC16(p *Parser, req *Request, resp *Response) {
 		}
 		runCarryHuge(math.MaxUint64-uint64(simrt.Choose(3)), 1+uint64(simrt.Choose(int(N)+40)))
 	}
+	// a bounded call right after another call in the same process, the pools
+	// and whatever else the package keeps as the first one left them: a budget
+	// that suffices alone suffices then too
+	if ticksKnown && !refExhausted && N >= 2 && len(req.Budgets) == 0 && len(req.Carries) == 0 && len(resp.Violations) == 0 {
+		first := p.Solo(&call, req.Pool, int64(ref+2)*C)
+		c2 := call
+		c2.Opts.MaxExpr = N + 3
+		r2 := p.After(&c2, int64(ref+2)*C)
+		resp.Runs += 2
+		resp.stat("bounded_runs_right_after_another_call", 1)
+		bad := ""
+		switch {
+		case first.Aborted || first.Overflow || r2.Overflow:
+		case r2.Aborted:
+			bad = "did not return within the reference's step bound"
+		case r2.Escaped != R.Escaped:
+			bad = "panicked: " + r2.Escaped
+		case r2.Value != R.Value:
+			bad = "returned " + r2.Value + " instead of " + R.Value
+		default:
+			if ok, _ := sameStrings(errMsgs(r2), refErrs); !ok {
+				bad = fmt.Sprintf("reported %q instead of %q", errMsgsShort(r2), refErrs)
+			} else if ok, at := sameStrings(historyKeys(r2), refHist); !ok {
+				bad = fmt.Sprintf("ran other blocks (history differs at event %d)", at)
+			}
+		}
+		if bad != "" {
+			resp.Violations = append(resp.Violations, Violation{Class: "unexhausted-differs", Attrs: attrs(N+3, "unexhausted-differs"),
+				Msg: fmt.Sprintf("MaxExpressions(%d) suffices when the call is made alone (it needs %d expressions), but made right after another call of the same process it %s", N+3, N, bad)})
+		}
+	}
 	if req.Full {
 		resp.Results = []*CallResult{R}
 	}
